@@ -440,6 +440,28 @@ fn check_files_concat(case: &Case, ctx: &mut Ctx) -> Option<Violation> {
     ) {
         return Some(v);
     }
+    // a file named twice is read twice: f1 .. fn f1 must equal the stream followed by f1 again
+    if !files.is_empty() && !files[0].is_empty() && matches!(files[0].last(), Some(b' ' | b'\n' | b'\t' | b'\r')) && matches!(input.last(), Some(b' ' | b'\n' | b'\t' | b'\r') | None) {
+        let mut twice = input.clone();
+        twice.extend_from_slice(&files[0]);
+        let d2 = ctx.exec(ref_spec(case, &twice));
+        if d2.outcome.is_ok() && d0.outcome.is_ok() {
+            let paths = ctx.fresh_paths(files.len());
+            let mut spec = sim_files_spec(case, &paths, &files, &[]);
+            spec.argv.push(paths[0].clone());
+            let sf = ctx.exec(spec);
+            ctx.stats.probe("a file argument named twice");
+            if let Some(v) = compare(
+                "C17.files-concat",
+                &format!("{} files and the first of them named again at the end vs the same bytes on stdin", files.len()),
+                &sf,
+                &d2,
+                false,
+            ) {
+                return Some(v);
+            }
+        }
+    }
     // the same partition behind the opener seam, every file in seeded chunks with EINTR
     {
         let mut rng = Rng::new(crate::rng::mix(&[input.len() as u64, files.len() as u64, 17]));
@@ -825,6 +847,45 @@ fn check_context(case: &Case, ctx: &mut Ctx) -> Option<Violation> {
         }
         in_file += 1;
         let _ = k.scalar;
+    }
+    if contains_violation.is_none() && !as_dir && rows.len() >= 2 {
+        // the selectors belong to their value even when a stage holds the value back: two
+        // sort keys, a constant and &index descending, must give exactly the rows in reverse
+        let mut sorted = case.clone();
+        sorted.opts.push(vec!["--sort-by=\"k\"".into()]);
+        sorted.opts.push(vec!["--sort-by=&index=DESC".into()]);
+        let b = if use_files {
+            let p2 = ctx.fresh_paths(files.len());
+            let mut r = ctx.exec(sim_files_spec(&sorted, &p2, &files, &[]));
+            r.obs.stdout = {
+                let mut t = r.obs.stdout.clone();
+                for (a, b) in p2.iter().zip(paths.iter()) {
+                    t = String::from_utf8_lossy(&t).replace(a.replace('/', "\\/").as_str(), b.replace('/', "\\/").as_str()).into_bytes();
+                }
+                t
+            };
+            r
+        } else {
+            let input = case.stream();
+            ctx.exec(case_spec(&sorted, &input))
+        };
+        if b.outcome.is_ok() {
+            let tb = String::from_utf8_lossy(&b.obs.stdout).to_string();
+            let mut rb: Vec<&str> = tb.split('\n').filter(|l| !l.is_empty()).collect();
+            rb.reverse();
+            ctx.stats.probe("context rows re-checked behind two sorters");
+            if rb != rows {
+                let at = rb.iter().zip(rows.iter()).position(|(x, y)| x != y).unwrap_or(rb.len().min(rows.len()));
+                return viol(
+                    "C17.context",
+                    format!(
+                        "sorted by a constant and by &index descending, the rows are not the unsorted rows in reverse (first difference at row {at}): {:?} vs {:?}",
+                        rb.get(at),
+                        rows.get(at)
+                    ),
+                );
+            }
+        }
     }
     contains_violation
 }
